@@ -26,6 +26,11 @@ pub enum Step {
     Dup { sel: u32 },
     /// a peer that is not among the closest sends a replication list to `node`
     ForeignAdvert { node: u8 },
+    /// the node's responsible range (store + fetcher) is set to the distance of its `sel`-th closest record:
+    /// it keeps and advertises what it holds beyond the range but no longer fetches such records
+    SetRange { node: u8, sel: u8 },
+    /// the next disk write of a first copy fetched through replication fails once at `node` (transient error)
+    DiskErr { node: u8 },
 }
 
 #[derive(Serialize, Deserialize, Clone, Debug)]
@@ -37,6 +42,9 @@ pub struct Plan {
     pub steps: Vec<Step>,
     /// clean rounds at the end, after faults have stopped
     pub final_rounds: u8,
+    /// swarm knob: size of each node's in-memory record cache (0 = default 25)
+    #[serde(default)]
+    pub cache: usize,
 }
 
 pub struct ClusterSim;
@@ -52,11 +60,11 @@ impl Sim for ClusterSim {
             modes: vec!["nofault", "fault"],
             quick_runs: 3_000,
             thorough_runs: 12_000,
-            rule: "One run = 2..3 full real nodes in one process, each accepting seeded client uploads (all four kinds; divergent versions of the same mutable record at different nodes), then replication rounds (clock past the 30 s throttle, TriggerIntervalReplication, Replicate lists, GetReplicatedRecord fetches, store_replicated_in_record) over a simulated transport; mode fault delays, reorders, duplicates and loses messages and injects advertisements from a peer that is not among the closest. After the faults stop, 6 clean rounds follow and all nodes must hold byte-identical immutable records and converged mutable records (merged register, union of transactions, highest scratchpad). Every Replicate list must equal the sender's held set. Non-trivial = >= 3 operations and (>= 1 fault or non-FIFO delivery).",
+            rule: "One run = 2..3 full real nodes in one process, each accepting seeded client uploads (all four kinds; divergent versions of the same mutable record at different nodes), then replication rounds (clock past the 30 s throttle, TriggerIntervalReplication, Replicate lists, GetReplicatedRecord fetches, store_replicated_in_record) over a simulated transport; mode fault delays, reorders, duplicates and loses messages, fails the first disk write of a replicated copy once, and injects advertisements from a peer that is not among the closest. After the faults stop, 6 clean rounds follow and all nodes must hold byte-identical immutable records and converged mutable records (merged register, union of transactions, highest scratchpad). Every Replicate list must equal the sender's held set. Non-trivial = >= 3 operations and (>= 1 fault or non-FIFO delivery).",
             assumptions: vec![
                 "libp2p transport / kad / request-response are stubs: the simulator carries the same Request/Response values between the real handlers of the nodes",
                 "the payment contract is the in-process ledger (all uploads in this sim carry valid payments)",
-                "all nodes are within each other's K closest and replication candidates (small routing tables), no responsible range set, spare capacity",
+                "all nodes are within each other's K closest and replication candidates (small routing tables), spare capacity; a responsible range is set at some nodes in a third of the runs (pairs out of a node's range are exempt from the convergence requirement, never from the advertise-everything requirement)",
                 "std::time::Instant deadlines of the replication throttle / fetcher are aged through the guarded hook (equivalent to the clock advancing)",
             ],
         }]
@@ -69,6 +77,8 @@ impl Sim for ClusterSim {
             Tier::Quick => rng.urange(1, 6),
             Tier::Thorough => rng.urange(1, 10),
         };
+        // swarm knob: in a third of the runs some nodes get a responsible range
+        let with_ranges = rng.chance(1, 3);
         let mut steps = vec![];
         for _ in 0..n_uploads {
             let kind = rng.below(4) as u8;
@@ -87,12 +97,16 @@ impl Sim for ClusterSim {
                         1 => Step::Dup { sel: rng.below(1 << 16) as u32 },
                         2 => Step::Trigger { node: rng.below(n_nodes as u64) as u8 },
                         3 => Step::ForeignAdvert { node: rng.below(n_nodes as u64) as u8 },
+                        4 if rng.chance(1, 2) => Step::DiskErr { node: rng.below(n_nodes as u64) as u8 },
                         _ => Step::Run { sel: rng.below(1 << 16) as u32 },
                     });
                 }
             }
             if rng.chance(1, 3) {
                 steps.push(Step::Round);
+            }
+            if with_ranges && rng.chance(1, 4) {
+                steps.push(Step::SetRange { node: rng.below(n_nodes as u64) as u8, sel: rng.below(8) as u8 });
             }
         }
         if fault {
@@ -114,6 +128,7 @@ impl Sim for ClusterSim {
             n_nodes,
             steps,
             final_rounds: 6,
+            cache: *rng.pick(&[0usize, 0, 1, 2]),
         }
     }
 
